@@ -43,6 +43,15 @@ def _is_ellipsis_stmt(s):
     return isinstance(s, ast.Expr) and isinstance(s.value, ast.Constant) and s.value.value is Ellipsis
 
 
+def is_noop(s):
+    """a statement without effect in the analysed code: `pass`, a docstring or any other constant expression statement"""
+    return isinstance(s, ast.Pass) or (isinstance(s, ast.Expr) and isinstance(s.value, ast.Constant) and s.value.value is not Ellipsis)
+
+
+def effective(stmts):
+    return [s for s in stmts if not is_noop(s)]
+
+
 def _is_ellipsis_expr(e):
     return isinstance(e, ast.Constant) and e.value is Ellipsis
 
@@ -109,6 +118,9 @@ def match(p, n, env):
         if not isinstance(n, list):
             return False
         if p and all(isinstance(x, ast.stmt) for x in p):
+            n = effective(n)
+            if not _is_ellipsis_stmt(p[-1]) and len([x for x in p if not _is_ellipsis_stmt(x)]) < len(n) and not any(_is_ellipsis_stmt(x) for x in p):
+                return False  # a nested block is matched whole unless the pattern leaves it open with `...`
             return _match_stmts(p, n, env, anchored=True)
         # call arguments with a trailing `...`
         if p and _is_ellipsis_expr(p[-1]):
@@ -168,6 +180,7 @@ def find(root, text, skip_nested=False):
                     out.append((n, env))
         return out
     for lst in _stmt_lists(root):
+        lst = effective(lst)
         for i in range(len(lst)):
             env = {}
             if _match_stmts(pat, lst[i:], env, True):
